@@ -65,7 +65,7 @@ META = {
     ),
     "C17": dict(
         category="exploration",
-        text="The console commands are called in-process on a real scratch directory; torch.multiprocessing pools are replaced by SimPool, a single-threaded executable model of multiprocessing.Pool whose feed / assign / work / deliver events are picked by the seeded choice tape (completion order, chunk assignment, consumer lag, feeder run-ahead), with pickle round trips for everything crossing the process boundary and seed-permuted directory listings. Each pipeline (trn, ctm, TextGrid round trips; ali<->token; error rates; subset; length moments, mvn stats, info; chunk command) first runs a warm-up round on the same paths with one utterance fewer (state remembered between invocations goes stale), then serially and under 2-3 pooled configurations: inverse-pair and printed-figure oracles are judged on the serial run (figures against a float64 / pure-Python DP recomputation), and every pooled run must reproduce the serial run's files, printed text and exit status.",
+        text="The console commands are called in-process on a real scratch directory; torch.multiprocessing pools are replaced by SimPool, a single-threaded executable model of multiprocessing.Pool whose feed / assign / work / deliver events are picked by the seeded choice tape (completion order, chunk assignment, consumer lag, feeder run-ahead), with pickle round trips for everything crossing the process boundary and seed-permuted directory listings. Each pipeline (trn, ctm, TextGrid round trips; ali<->token; error rates; subset; length moments, mvn stats, info; chunk command) first runs a warm-up round on the same paths with one utterance fewer (state remembered between invocations goes stale), then serially and under 2-3 pooled configurations: inverse-pair and printed-figure oracles are judged on the serial run (figures against a float64 / pure-Python DP recomputation), and every pooled run must reproduce the serial run's files, printed text and exit status. Every documented option of every command is passed by some scenarios (./check selftest-reach: 0 never passed).",
         design="DESIGN.md section 4 (C17), 3.4",
         note="Trusted: SimPool's model of multiprocessing.Pool (workers share the imported module; spawn start-up state, real pipes and OS-killed workers not modelled); SimDataLoader stub for DataLoader(num_workers>0) (torch's in-order contract assumed); oracles in props/pipelines.py. No I/O errors injected.",
         technique="deterministic simulation: tape-scheduled model of the worker pool, permuted listings, serial-vs-pooled differential + inverse-pair / recomputation oracles",
